@@ -14,6 +14,7 @@ COMMON_ASSUMPTIONS = [
     "verdicts come from the `verif` cargo profile (release semantics: debug assertions and overflow checks off)",
     "/repo is compiled from its current working tree with --cfg penguin_rs_verif (observer hooks on; hooks are add-only)",
     "held = no monitor fired on the executions listed under coverage; nothing is claimed about executions not produced",
+    "where a `dev` job is listed (thorough tier): the same valid-input workload is also run with debug assertions on, so that the repository's own debug_assert!s act as extra monitors; a panic there is reported as a violation of the property whose workload it was",
 ]
 
 SIM_ASSUMPTIONS = [
@@ -71,7 +72,8 @@ PROPS = {
         "level": "exploration",
         "jobs": {
             "quick": [job("sim", "mux", "verif", "c02", 8), job("thr", "mux", "verif", "c02", 4, extra=["--engine", "thr"])],
-            "thorough": [job("sim", "mux", "verif", "c02", 16), job("thr", "mux", "verif", "c02", 16, extra=["--engine", "thr"])],
+            "thorough": [job("sim", "mux", "verif", "c02", 16), job("thr", "mux", "verif", "c02", 16, extra=["--engine", "thr"]),
+                         job("dev", "mux", "dev", "c02", 8, extra=["--scale", "0.05"])],
         },
         "required_targets": {"any": ["reads", "eof_seen"]},
         "assumptions": COMMON_ASSUMPTIONS + SIM_ASSUMPTIONS,
@@ -80,7 +82,8 @@ PROPS = {
         "level": "exploration",
         "jobs": {
             "quick": [job("sim", "mux", "verif", "c03", 8), job("thr", "mux", "verif", "c03", 4, extra=["--engine", "thr"])],
-            "thorough": [job("sim", "mux", "verif", "c03", 16), job("thr", "mux", "verif", "c03", 16, extra=["--engine", "thr"])],
+            "thorough": [job("sim", "mux", "verif", "c03", 16), job("thr", "mux", "verif", "c03", 16, extra=["--engine", "thr"]),
+                         job("dev", "mux", "dev", "c03", 8, extra=["--scale", "0.05"])],
         },
         "required_targets": {"any": ["writer_blocked_at_zero", "ack_raced_write"]},
         "assumptions": COMMON_ASSUMPTIONS + SIM_ASSUMPTIONS + [
@@ -103,7 +106,7 @@ PROPS = {
         "level": "exploration",
         "jobs": {
             "quick": [job("sim", "mux", "verif", "c05", 8)],
-            "thorough": [job("sim", "mux", "verif", "c05", 16)],
+            "thorough": [job("sim", "mux", "verif", "c05", 16), job("dev", "mux", "dev", "c05", 8, extra=["--scale", "0.05"])],
         },
         "required_targets": {"any": ["eof_seen", "zero_length_writes", "broken_pipe"]},
         "assumptions": COMMON_ASSUMPTIONS + SIM_ASSUMPTIONS,
@@ -112,7 +115,7 @@ PROPS = {
         "level": "exploration",
         "jobs": {
             "quick": [job("sim", "mux", "verif", "c06", 8)],
-            "thorough": [job("sim", "mux", "verif", "c06", 16)],
+            "thorough": [job("sim", "mux", "verif", "c06", 16), job("dev", "mux", "dev", "c06", 8, extra=["--scale", "0.05"])],
         },
         "required_targets": {"any": ['aborts', 'id_reuses', 'leak_probes']},
         "assumptions": COMMON_ASSUMPTIONS + SIM_ASSUMPTIONS + ['flow tables are read through the verif_flow_ids accessor only at quiescent points (1 ms of virtual time with nothing runnable); a table entry is a leak iff neither application holds a stream with that id', 'freed ids are re-issued only at quiescent points: in-flight frames of the previous incarnation are not demanded to be harmless (the protocol has no generation numbers)', "a stream that was finished and then dropped before reading everything sends no Reset; the peer's blocked writer is then an 'absent reader' case and is not demanded to be released"],
@@ -139,7 +142,8 @@ PROPS = {
         "level": "exploration",
         "jobs": {
             "quick": [job("sim", "mux", "verif", "c11", 8), job("thr", "mux", "verif", "c11", 4, extra=["--engine", "thr"])],
-            "thorough": [job("sim", "mux", "verif", "c11", 16), job("thr", "mux", "verif", "c11", 16, extra=["--engine", "thr"])],
+            "thorough": [job("sim", "mux", "verif", "c11", 16), job("thr", "mux", "verif", "c11", 16, extra=["--engine", "thr"]),
+                         job("dev", "mux", "dev", "c11", 8, extra=["--scale", "0.05"])],
         },
         "required_targets": {"any": ['dgram_received', 'dgram_arrived_at_full_buffer']},
         "assumptions": COMMON_ASSUMPTIONS + SIM_ASSUMPTIONS + ['loss licence is computed from the event order: every delivery that finds the (modelled) buffer full licenses one loss; the modelled occupancy is never below the real one, so the bound is never stricter than the statement', 'identity of a datagram = (flow id, port), unique per datagram by construction; payloads >= 8 bytes also carry it'],
